@@ -11,7 +11,9 @@ Inductive out_item :=
 | OFtpError                      (* what() of an ftp_exception (system-dependent text) *)
 | OProgressBegin | OProgressEnd. (* "Transmitting data..." / end of line of the transfer callback *)
 
-(* the local file system: what std::filesystem::exists / ofstream / ifstream / remove do with a name *)
+(* the local file system: what exists(symlink_status(name)) / ofstream / ifstream / remove do with a name. The keys are the
+   names present in the working directory: regular files, and - with empty content - directories and symbolic links,
+   dangling ones included (the handler looks at the name itself, not at what a link points to) *)
 Definition fs := list (bytes * bytes).
 Fixpoint fs_get (f : fs) (n : bytes) : option bytes :=
   match f with [] => None | (k, v) :: f' => if bytes_eqb k n then Some v else fs_get f' n end.
